@@ -3,6 +3,7 @@
 package verifsim
 
 import (
+	"sort"
 	"bytes"
 	"context"
 	"encoding/base64"
@@ -121,6 +122,8 @@ type c10Req struct {
 	After  Stored
 	T      time.Time
 	Fault  string // the storage fault that fired while this request was served ("" = none)
+	Snap   map[string]string // every configured log's latest checkpoint after the request
+	Logs   []string          // the witness's log list after the request
 }
 
 func c10Malform(kind string, body []byte, r *Rng) []byte {
@@ -325,6 +328,14 @@ func c10Exec(t *testing.T, p *Plan) (r *c10Result) {
 					tracked[target.ID] = cr.After
 				}
 			}
+			cr.Snap = map[string]string{}
+			for _, l := range w.Logs {
+				if cur, err := realW.GetCheckpoint(l.ID); err == nil {
+					cr.Snap[l.ID] = string(cur)
+				}
+			}
+			cr.Logs, _ = realW.GetLogs()
+			sort.Strings(cr.Logs)
 			r.reqs = append(r.reqs, cr)
 		}
 		r.simT = time.Since(start)
@@ -885,5 +896,92 @@ func c20ViaBastion(t *testing.T, p *Plan) *Outcome {
 	}
 	out.Distinct = []string{fmt.Sprintf("bastion/%v", mix)}
 	out.Stats.Probes["histories_via_bastion_endpoint"]++
+	return out
+}
+
+// c03ViaBastion: C03 for requests that arrive through the add-checkpoint endpoint (handler, adapter, witness): whatever is
+// answered other than 200, every log's latest checkpoint and the log list are byte for byte what they were, and the answer
+// carries no witness signature over the submitted text.
+func c03ViaBastion(t *testing.T, p *Plan) *Outcome {
+	out := &Outcome{Stats: newStats()}
+	r := c10Exec(t, p)
+	if r.infra != "" {
+		out.Infra = []string{r.infra}
+		return out
+	}
+	prev := map[string]string{}
+	var prevLogs []string
+	for i, q := range r.reqs {
+		out.Events = append(out.Events, fmt.Sprintf("%d %s %d", i, q.Want, q.Status))
+		if q.Status != 200 {
+			out.Stats.Probes["refused_through_endpoint"]++
+			out.Distinct = append(out.Distinct, fmt.Sprintf("endpoint/%s/%d", q.Want, q.Status))
+			for _, l := range r.W.Logs {
+				if q.Snap[l.ID] != prev[l.ID] {
+					out.Viol = append(out.Viol, Violation{Class: "state_changed_on_refusal", Sig: "state_changed_on_refusal/via_endpoint", OpIdx: i,
+						Detail: fmt.Sprintf("request %d through the endpoint (%s; %s) was answered %d, yet log %d went from %s to %s", i, q.Kind, q.Req.Desc, q.Status, l.Idx, short([]byte(prev[l.ID])), short([]byte(q.Snap[l.ID])))})
+				}
+			}
+			if strings.Join(q.Logs, ",") != strings.Join(prevLogs, ",") {
+				out.Viol = append(out.Viol, Violation{Class: "state_changed_on_refusal", Sig: "state_changed_on_refusal/log_list/via_endpoint", OpIdx: i,
+					Detail: fmt.Sprintf("request %d through the endpoint was answered %d, yet the log list went from %v to %v", i, q.Status, prevLogs, q.Logs)})
+			}
+			// no witness signature over the refused text in the answer
+			for _, l := range strings.SplitAfter(string(q.RBody), "\n") {
+				if !strings.HasPrefix(l, "\u2014 ") || q.Req == nil {
+					continue
+				}
+				if pn, err := ParseNote(MakeNote(q.Req.Text, l)); err == nil && len(pn.Sigs) == 1 {
+					for _, wk := range r.W.WitKeys {
+						ok := false
+						if wk.Cosig {
+							ok, _ = wk.Key.VerifyCosigV1(q.Req.Text, pn.Sigs[0])
+						} else {
+							ok = wk.Key.VerifyEd25519(q.Req.Text, pn.Sigs[0])
+						}
+						if ok {
+							out.Viol = append(out.Viol, Violation{Class: "cosignature_leaked", Sig: "cosignature_leaked/via_endpoint", OpIdx: i,
+								Detail: fmt.Sprintf("request %d was answered %d and the body carries a valid witness signature over the refused checkpoint", i, q.Status)})
+						}
+					}
+				}
+			}
+		}
+		prev, prevLogs = q.Snap, q.Logs
+	}
+	out.Stats.Probes["histories_via_bastion_endpoint"]++
+	return out
+}
+
+// c08ViaBastion: C08 for honest updates that arrive through the endpoint: after any prior traffic (accepted, refused,
+// pushed back), an honest update sent after two token periods of silence - when no limiter of the configured rate can be
+// short of a token, since pushed-back requests use up nothing - is answered 200.
+func c08ViaBastion(t *testing.T, p *Plan) *Outcome {
+	out := &Outcome{Stats: newStats()}
+	r := c10Exec(t, p)
+	if r.infra != "" {
+		out.Infra = []string{r.infra}
+		return out
+	}
+	from := int(p.Cfg.Extra["probe_from"])
+	n := 0
+	for i, op := range p.Ops {
+		if op.K == "jump" {
+			continue
+		}
+		if i >= from && n < len(r.reqs) {
+			q := r.reqs[n]
+			out.Events = append(out.Events, fmt.Sprintf("probe %d %s %d", n, q.Want, q.Status))
+			if q.Want == "accept" && q.Req != nil && !q.Req.NoHonest && !(q.St.Has && q.St.Size == 0) {
+				out.Stats.Probes["honest_probes_through_endpoint"]++
+				out.Distinct = append(out.Distinct, fmt.Sprintf("endpoint_probe/%d", q.Status))
+				if q.Status != 200 {
+					out.Viol = append(out.Viol, Violation{Class: "honest_update_refused", Sig: fmt.Sprintf("honest_update_refused/via_endpoint/status=%d", q.Status), OpIdx: i,
+						Detail: fmt.Sprintf("an honest update (%s; stored {%s}) sent through the endpoint after at least two token periods of silence at a configured rate of %v/s was answered %d", q.Req.Desc, cpBrief(q.St), r.rate, q.Status)})
+				}
+			}
+		}
+		n++
+	}
 	return out
 }
